@@ -422,10 +422,12 @@ def inner(ctx, exe, d, hists, ngc):
             pass
     nweak_total = 0
     nfin_total = [0]
+    replayed = 0
     for g in wanted:
         ph = dumps.get(g, {})
         if not all(k in ph for k in ("pre", "marked", "weak", "post")):
             continue
+        replayed += 1
         pre, marked, weak, post = ph["pre"], ph["marked"], ph["weak"], ph["post"]
         hs, nslots = heap_string(pre, None)
         fuel = nslots + len(pre["objs"]) + 16
@@ -491,6 +493,8 @@ def inner(ctx, exe, d, hists, ngc):
     ctx.note("inner: %d collections replayed (%s), %d weak objects and %d port/fileno states compared" % (len(wanted), wanted, nweak_total, nfin_total[0]))
     if nfin_total[0] == 0:
         ctx.note("inner: the build prints no port/fileno state (fixes/hook-C16-dump-port-state.patch not applied): finaliser effects are tied by the outer histories only")
+    if replayed < (len(wanted) + 1) // 2:
+        ctx.broken("inner-correspondence:C16", "only %d of the %d requested collections were found complete in the trace" % (replayed, len(wanted)))
     if nweak_total == 0:
         ctx.broken("inner-correspondence:C16", "no weak object in any dumped collection")
 
